@@ -9,6 +9,9 @@ mod c_term;
 mod diag;
 mod c_lex;
 mod corpus;
+mod sup;
+mod c_pipe;
+mod c_gen;
 
 fn main() {
     colored::control::set_override(false);
@@ -24,6 +27,21 @@ fn main() {
         "replay-lex" => c_lex::replay(rest),
         "record-lex" => c_lex::record(rest),
         "record-relayout" => c_lex::record_relayout(rest),
+        "gen-programs" => c_gen::main(rest),
+        "record-pipeline" => c_pipe::record(rest),
+        "replay-pipeline" => c_pipe::replay(rest),
+        "worker" => match rest[0].as_str() {
+            "pipeline" => c_pipe::worker(&rest[1..]),
+            "record" => c_pipe::record_worker(&rest[1..]),
+            k => {
+                eprintln!("unknown worker kind {k}");
+                std::process::exit(2);
+            }
+        },
+        "run-text" => {
+            let text = rest[0].replace("\\n", "\n");
+            println!("{}", c_pipe::record_case(&serde_json::json!({"text": text, "origin": "cli", "steps": false}).to_string(), 1000));
+        }
         "show-error" => c_lex::show_error(rest),
         other => {
             eprintln!("unknown subcommand {other}");
